@@ -47,6 +47,7 @@ REQUIRED = [
     'EdbVerif.C19.C19_reject', 'EdbVerif.C19.C19_json', 'EdbVerif.C19.C19_json_invariant',
     'EdbVerif.C19.C19_json_reachable', 'EdbVerif.C19.duration_rt',
     'EdbVerif.C19.memory_rt', 'EdbVerif.C19.memory_rt_negative_counterexample',
+    'EdbVerif.C19.C19_rem_noop_masks_counterexample',
 ]
 
 SAFE = 'abcXYZ019 _./:-'
@@ -131,6 +132,7 @@ class Env:
             S('dn', type=statypes.Duration, default=None, required=False),
             S('mem', type=statypes.ConfigMemory, default=statypes.ConfigMemory('1KiB')),
             S('ints', type=int, set_of=True, default=frozenset()),
+            S('durs', type=statypes.Duration, set_of=True, default=frozenset()),
             S('strs', type=str, set_of=True, default=frozenset()),
             S('obj', type=self.Port, default=None, required=False),
             S('objs', type=self.Port, set_of=True, default=frozenset()),
@@ -520,6 +522,11 @@ def gen_nested_sequence(rng, maxlen=12):
 
 
 NESTED_CORPUS = [
+    # a filtered RESET at a scope without an entry stores an empty set there and masks the instance value
+    [['ADD', 'INSTANCE', 'objs', {'database': 'a', 'port': 1}], ['REM', 'SESSION', 'objs', {'database': 'zzz'}],
+     ['REM', 'DATABASE', 'objs', None]],
+    # True for an int64 setting; a set of durations (not JSON serialisable)
+    [['SET', 'SESSION', 'i', True], ['SET', 'DATABASE', 'ints', [True, 2]], ['SET', 'INSTANCE', 'durs', ['1s', 'PT2S']]],
     # the nested object is given as a SUBTYPE of the declared field type, with and without own fields
     [['ADD', 'INSTANCE', 'nauths', {'priority': 1, 'method': {'_tname': 'Trust'}}],
      ['ADD', 'INSTANCE', 'nauths', {'priority': 2, 'method': {'_tname': 'Scram', 'iters': 4096}}],
@@ -567,6 +574,10 @@ def gen_value(rng, env, name, code):
         if rng.random() < 0.01:
             return list(range(rng.choice([128, 129])))
         return [rng.choice([0, 1, 2, 3, True, False, -5, 2 ** 70]) for _ in range(rng.randint(0, 5))]
+    if name == 'durs':
+        if inval:
+            return rng.choice([5, None, 'PT1S', [5], ['bad']])
+        return [rng.choice(['1s', 'PT2S', '1:00', '2 s', '-1s']) for _ in range(rng.randint(0, 3))]
     if name == 'strs':
         if inval:
             return rng.choice([5, None, ['a', 1], 'ab', [None]])
@@ -742,7 +753,9 @@ def run_sequence(env, real, ops, ctx, stats, tag):
                              {'ops': ops[:idx + 1]})
             else:
                 sv = after.get(name)
-                if sv is None or str(sv.scope) != scope or sv.name != name:
+                if sv is None and code == 'REM' and name not in before:
+                    pass        # nothing stored for a REM at a scope without an entry: fine
+                elif sv is None or str(sv.scope) != scope or sv.name != name:
                     ctx.fail(f'oracle:set-entry:{code}:{name}', 'stored entry has the wrong name/scope',
                              {'ops': ops[:idx + 1]})
             if code in ('ADD', 'REM') and name in after:
@@ -756,6 +769,18 @@ def run_sequence(env, real, ops, ctx, stats, tag):
                     if not (isinstance(new, frozenset) and new <= old and len(old) - len(new) <= 1):
                         ctx.fail(f'oracle:rem:{name}', 'REM is not the removal of at most one element',
                                  {'ops': ops[:idx + 1]})
+                    elif isinstance(old, frozenset) and len(new) == len(old):
+                        # S (composition): a filtered RESET that removed nothing must not change the
+                        # effective value of the setting (most specific layer first)
+                        layers_before = [maps[s_] for s_ in SCOPES]
+                        layers_after = [after if s_ == scope else maps[s_] for s_ in SCOPES]
+                        eb = real.look(name, *layers_before)
+                        ea = real.look(name, *layers_after)
+                        if eb != ea:
+                            ctx.fail(f'oracle:rem-noop-changes-effective:{_kind(name)}',
+                                     'a filtered RESET (REM) that removed nothing changed the effective value: it '
+                                     'stored an empty set at its scope, which masks the value of a less specific scope',
+                                     {'ops': ops[:idx + 1], 'effective_before': eb, 'effective_after': ea})
             # S: exclusivity across the declared type hierarchy, after every accepted ADD / SET on objects
             if code in ('ADD', 'SET') and name in after and isinstance(after[name].value, frozenset):
                 for fname, ta, tb_, v in exclusive_clashes(after[name].value, env.types.CompositeConfigType):
@@ -771,7 +796,12 @@ def run_sequence(env, real, ops, ctx, stats, tag):
         # S: independent validity of SET values for the plain kinds
         if code == 'SET' and name in PLAIN:
             valid = plain_valid(name, value)
-            if valid != (res == 'ok'):
+            if res == 'ok' and not valid and plain_valid(name, value, bool_is_int=True):
+                ctx.fail('accepts-invalid:bool-for-int',
+                         'SET accepted a bool for an int64 setting (isinstance(True, int)); the statement '
+                         'to_edgeql prints for it (`:= true`) is rejected by the compiler',
+                         {'ops': ops[:idx + 1]})
+            elif valid != (res == 'ok'):
                 ctx.fail(f'oracle:validity:{name}:{"accepted" if res == "ok" else "rejected"}',
                          'SET accepted a value outside the setting\'s type' if res == 'ok' else
                          'SET rejected a value of the setting\'s type', {'ops': ops[:idx + 1]})
@@ -827,6 +857,37 @@ def run_sequence(env, real, ops, ctx, stats, tag):
                          f'to_edgeql raised {exc_name(ex)}: {ex}', {'ops': ops, 'scope': scope, 'setting': k})
         final.append(f)
     return {'steps': steps, 'look': look, 'final': final}
+
+
+def secret_probe(env, ctx):
+    """candidate 7: `CompositeTypeSpec.__post_init__` tests isinstance(field, CompositeTypeSpec) on the FIELD
+    object, so a secret inside a nested object type never makes the outer type `has_secret`.  Checked here:
+    no secret VALUE reaches to_edgeql(with_secrets=False) or debug_serialize_config (hard oracle); what is
+    observed instead is recorded."""
+    st, types, spec_ = env.statypes, env.types, sys.modules['edb.server.config.spec']
+    F = st.CompositeTypeSpecField
+    mk = lambda *fs: env.immutables.Map({f.name: f for f in fs})        # noqa: E731
+    Inner = types.ConfigTypeSpec(name='Inner', fields=mk(F('pw', str, secret=True), F('host', str, default=None)))
+    Outer = types.ConfigTypeSpec(name='Outer', fields=mk(F('name', str, unique=True), F('inner', Inner, default=None)))
+    sp = spec_.FlatSpec(spec_.Setting('outs', type=Outer, set_of=True, default=frozenset()))
+    op = ['ADD', 'INSTANCE', 'outs', {'name': 'n', 'inner': {'pw': 'TOPSECRET-7', 'host': 'h'}}]
+    m = env.ops.Operation(env.ops.OpCode('ADD'), env.qltypes.ConfigScope('INSTANCE'), 'outs',
+                          json.loads(json.dumps(op[3]))).apply(sp, env.immutables.Map())
+    out = {'Inner.has_secret': Inner.has_secret, 'Outer.has_secret': Outer.has_secret}
+    texts = {}
+    try:
+        texts['to_edgeql(with_secrets=False)'] = env.ops.to_edgeql(sp, m, False)
+    except Exception as e:     # noqa: BLE001
+        texts['to_edgeql(with_secrets=False)'] = 'raises ' + exc_name(e)
+    from edb.server.config import debug_serialize_config
+    texts['debug_serialize_config'] = json.dumps(debug_serialize_config(m))
+    for where, t in texts.items():
+        if 'TOPSECRET-7' in t:
+            ctx.fail(f'oracle:secret-leak:{where}', 'a secret value of a nested object appears in non-secret output',
+                     {'probe_op': op, 'output': t})
+    out['to_edgeql(with_secrets=False) prints the outer object without the required secret field'] = \
+        'insert' in texts['to_edgeql(with_secrets=False)'] and 'pw' not in texts['to_edgeql(with_secrets=False)']
+    return out
 
 
 def only_gained_tname(orig, now):
@@ -979,10 +1040,16 @@ def exclusive_clashes(objs, cls):
 PLAIN = {'b': bool, 'i': int, 's': str, 'ints': int, 'strs': str}
 
 
-def plain_valid(name, value):
-    """is `value` a value of the (Python) type of the plain setting `name`?"""
+def plain_valid(name, value, bool_is_int=False):
+    """is `value` a value of the type of the plain setting `name`?  (`bool_is_int`: Python's view,
+    in which True/False are ints)"""
     t = PLAIN[name]
-    one = (lambda v: type(v) is bool) if t is bool else (lambda v: isinstance(v, t))
+    if t is bool:
+        one = lambda v: type(v) is bool                                  # noqa: E731
+    elif t is int and not bool_is_int:
+        one = lambda v: type(v) is int                                   # noqa: E731
+    else:
+        one = lambda v: isinstance(v, t)                                 # noqa: E731
     if name in ('ints', 'strs'):
         if not isinstance(value, (list, dict)):
             return False
@@ -993,7 +1060,7 @@ def plain_valid(name, value):
 
 def _kind(name):
     return {'obj': 'single-object', 'objs': 'object-set', 'auths': 'object-set', 'provs': 'object-set',
-            'nauths': 'nested-object-set', 'mem': 'memory',
+            'nauths': 'nested-object-set', 'mem': 'memory', 'durs': 'duration-set',
             'i': 'int', 'ints': 'int-set', 'd': 'duration', 'dn': 'duration'}.get(name, name)
 
 
@@ -1186,9 +1253,13 @@ def run(ctx: core.Ctx):
         if r != f'ok {n}':
             ctx.fail(f'oracle:memory-rt:{n}', 'ConfigMemory(str(m)) != m', {'n': n, 'str': s, 'back': r})
     for n in sorted(nvals):        # negative: accepted by ConfigMemory(int); compared, not judged here
-        s = M(n).to_str()
+        try:
+            s = M(n).to_str()
+            r = [s, _mem(M, s)]
+        except Exception as e:     # noqa: BLE001 – a constructor that rejects negatives: the model will disagree
+            r = [exc_name(e), exc_name(e)]
         dm_lines.append(f'memrt {n}')
-        dm_ref.append(('memrt', n, [s, _mem(M, s)]))
+        dm_ref.append(('memrt', n, r))
     for t in dur_texts:
         dm_lines.append('dur ' + json.dumps(t))
         r = _dur(D, t)
@@ -1317,6 +1388,7 @@ def run(ctx: core.Ctx):
         'duration_memory_cases': len(dm_lines), 'duration_memory_outcomes': dm_hist,
         'disagreements_model_vs_impl': n_dis,
         'edgeql_replay_level2': l2,
+        'nested_secret_probe': secret_probe(env, ctx) if not ctx.replay else None,
         'nested_object_stream (real code only)': {
             'sequences': len(nseqs), 'ops': sum(len(o) for o in nseqs), 'ok_by_opcode': nstats['ok'],
             'rejections_by_exception_class': nstats['err'],
@@ -1719,8 +1791,31 @@ def edgeql_replay_leg(ctx, replay_cases=None):
             n_ok += 1
             if len(samples) < 2:
                 samples.append(text[:300])
+    # the masking filtered RESET on the real spec: instance value, REM of an absent element at DATABASE
+    if replay_cases is None:
+        E_ = l2.im.Map()
+        wit = [['ADD', 'INSTANCE', 'sysobj', {'name': 'a'}], ['REM', 'DATABASE', 'sysobj', {'name': 'zzz'}]]
+        inst = l2.build(wit[:1])
+        try:
+            db = l2.ops.Operation(l2.ops.OpCode('REM'), l2.qltypes.ConfigScope('DATABASE'), 'sysobj',
+                                  {'name': 'zzz'}).apply(l2.spec, E_)
+            eb = canon_val(l2.envv.enc_val_for('sysobj', l2.config.lookup('sysobj', E_, inst, spec=l2.spec)))
+            ea = canon_val(l2.envv.enc_val_for('sysobj', l2.config.lookup('sysobj', db, inst, spec=l2.spec)))
+            if eb != ea:
+                ctx.fail('oracle:rem-noop-changes-effective:l2:sysobj',
+                         'a filtered RESET (REM) of an absent element at DATABASE scope masks the INSTANCE value',
+                         {'l2witness': wit, 'effective_before': eb, 'effective_after': ea})
+        except Exception:     # noqa: BLE001 – a rejection is fine
+            pass
     # reachability of the level-1 findings through the real compiler (observations only)
     probes = []
+    if replay_cases is None:
+        mb = l2.build([['SET', 'SESSION', '__internal_sess_testvalue', True]])
+        if mb:
+            tb_ = l2.ops.to_edgeql(l2.spec, mb, True)
+            back, err = l2.replay(tb_)
+            probes.append({'operation': 'SET __internal_sess_testvalue := True (bool for int64)', 'to_edgeql': tb_,
+                           'replay': 'ok' if err is None else f'rejected at {err[0]} by {exc_name(err[1])}'})
     for text in ["CONFIGURE SESSION SET durprop := <duration>'';",
                  "CONFIGURE SESSION SET durprop := <duration>'PT';",
                  "CONFIGURE SESSION SET memprop := <cfg::memory>-1024;",
